@@ -17,6 +17,7 @@ import (
 	"sort"
 	"strings"
 	"sync"
+	"time"
 
 	"github.com/cespare/xxhash/v2"
 	"github.com/restic/restic/internal/backend"
@@ -89,13 +90,15 @@ type Store struct {
 	Log      []Mut              // completed mutations, completion order
 	inflight map[int]Mut
 	nextOp   int
+	// visibleAt: files saved through a Backend with ListDelay > 0 appear in listings only from this time on
+	visibleAt map[FileKey]time.Time
 	// Sem computes the semantic (schedule-independent) name of a file from its content; may be nil.
 	Sem func(k FileKey, data []byte, lookup func(FileKey) string) string
 }
 
 // NewStore returns an empty store.
 func NewStore() *Store {
-	return &Store{files: State{}, names: map[FileKey]string{}, inflight: map[int]Mut{}}
+	return &Store{files: State{}, names: map[FileKey]string{}, inflight: map[int]Mut{}, visibleAt: map[FileKey]time.Time{}}
 }
 
 // NewStoreFrom returns a store initialised with a copy of st.
@@ -233,6 +236,25 @@ func (s *Store) Keys(t backend.FileType) []FileKey {
 	return out
 }
 
+// visibleKeys is Keys minus the files whose listing delay has not yet elapsed.
+func (s *Store) visibleKeys(t backend.FileType) []FileKey {
+	all := s.Keys(t)
+	s.mu.Lock()
+	defer s.mu.Unlock()
+	if len(s.visibleAt) == 0 {
+		return all
+	}
+	now := time.Now()
+	out := all[:0]
+	for _, k := range all {
+		if at, ok := s.visibleAt[k]; ok && now.Before(at) {
+			continue
+		}
+		out = append(out, k)
+	}
+	return out
+}
+
 // StateKey is a canonical hash of a state: the sorted multiset of (type, semantic name).
 func (s *Store) StateKey(st State) string {
 	s.mu.Lock()
@@ -310,6 +332,9 @@ type Backend struct {
 	Observe func(op *Op, answer string, err error)
 	// Ungated file types are passed through without a gate (e.g. lock files in scenarios that do not study locking).
 	Ungated map[backend.FileType]bool
+	// ListDelay models an eventually consistent listing: a file saved through this backend is returned by
+	// List (of any process) only ListDelay after the Save completed; Load/Stat see it immediately.
+	ListDelay time.Duration
 	// KeyBySem makes the semantic file name part of the event identity (use when the scenario's
 	// operation order is deterministic, e.g. lock protocols).
 	KeyBySem bool
@@ -464,6 +489,9 @@ func (b *Backend) Save(ctx context.Context, h backend.Handle, rd backend.RewindR
 	}
 	b.S.files[k] = buf
 	b.S.Log = append(b.S.Log, mut)
+	if b.ListDelay > 0 {
+		b.S.visibleAt[k] = time.Now().Add(b.ListDelay)
+	}
 	b.S.mu.Unlock()
 	if ans == "err-after" {
 		return b.done(op, ans, ErrInjected)
@@ -574,7 +602,7 @@ func (b *Backend) List(ctx context.Context, t backend.FileType, fn func(backend.
 		return b.done(op, ans, ErrInjected)
 	}
 	// the listing is the state at the moment the operation is released
-	keys := b.S.Keys(t)
+	keys := b.S.visibleKeys(t)
 	sizes := make([]int64, len(keys))
 	for i, k := range keys {
 		buf, _ := b.S.Get(k)
